@@ -45,15 +45,15 @@ impl EnumSrc {
 }
 
 const DERIVE_ITEMS: &[&str] = &[
-    "Debug", "Clone", "Copy", "PartialEq", "Eq", "Hash", "::core::fmt::Debug", "std::clone::Clone", "serde::Serialize", "core::cmp::PartialEq", "my_crate::derive::Thing",
+    "Debug", "Clone", "Copy", "PartialEq", "Eq", "Hash", "thiserror::Error", "::core::fmt::Debug", "std::clone::Clone", "serde::Serialize", "core::cmp::PartialEq", "my_crate::derive::Thing",
 ];
 const LOGOS_DERIVES: &[&str] = &["Logos", "Logos", "Logos", "logos::Logos", "::logos::Logos"];
 const OUTER_OTHER: &[&str] = &[
     "/// A token.", "#[repr(u8)]", "#[allow(dead_code)]", "#[cfg_attr(test, derive(PartialOrd))]", "#[doc = \"second\"]", "#[non_exhaustive]", "#[serde(tag = \"t\")]",
-    "#[derive()]", "#[must_use]",
+    "#[derive()]", "#[must_use]", "#[error(\"unexpected token\")]", "#[extras_like(u8)]", "#[tokens(all)]",
 ];
 const OUTER_LOGOS: &[&str] = &["#[logos(skip r\"[ \\t]+\")]", "#[logos(extras = u32)]", "#[logos(error = MyErr)]", "#[logos(subpattern d = \"[0-9]\")]"];
-const VAR_OTHER: &[&str] = &["/// doc", "#[cfg(all())]", "#[serde(rename = \"x\")]", "#[allow(unused)]", "#[doc(hidden)]", "#[deprecated]"];
+const VAR_OTHER: &[&str] = &["/// doc", "#[cfg(all())]", "#[serde(rename = \"x\")]", "#[allow(unused)]", "#[doc(hidden)]", "#[deprecated]", "#[error(\"bad\")]", "#[regexp(\"x\")]", "#[my::token(\"t\")]"];
 const FIELD_ATTRS: &[&str] = &["", "", "#[allow(unused)] ", "#[doc = \"f\"] ", "#[cfg(all())] ", "#[serde(skip)] ", "#[logos(nothing)] ", "#[regex(\"zz\")] "];
 
 pub fn enum_strategy() -> BoxedStrategy<EnumSrc> {
